@@ -16,6 +16,7 @@ type assignItem struct {
 	ref   Term
 	onResult bool
 	lo, hi *Term // absolute element index range [lo,hi) for x[a:b] items (nil = whole array)
+	guard *Term  // the item designates memory only if this holds (every pointer dereferenced on the way is non-nil, the slice is non-nil)
 }
 
 func mentionsResult(e *SExpr) bool {
@@ -139,6 +140,35 @@ func (sc *Scope) evalAssignItem(cl *Clause) (*assignItem, error) {
 		return nil, fmt.Errorf("assigns %s: unsupported location form", cl.Src)
 	}
 	it.onResult = mentionsResult(e)
+	// an item reached through a nil pointer (e.g. result0.Dims[*] when result0 == nil) or naming the elements of a
+	// nil slice designates no memory
+	var guards []Term
+	var walk func(x *SExpr)
+	walk = func(x *SExpr) {
+		if x == nil {
+			return
+		}
+		if x.Op == "sel" || x.Op == "fields" {
+			b := sc.eval(x.Args[0])
+			if sc.err == nil && b.v != nil && isPointer(b.v.T) && len(b.v.L) == 1 {
+				guards = append(guards, mkNot(mkEq(b.v.L[0], intConst(0))))
+			}
+		}
+		for _, a := range x.Args {
+			walk(a)
+		}
+	}
+	walk(e)
+	if sc.err != nil {
+		return nil, sc.err
+	}
+	if e.Op == "elems" || e.Op == "slice" {
+		guards = append(guards, mkNot(mkEq(it.ref, intConst(0))))
+	}
+	if len(guards) > 0 {
+		g := mkAnd(guards...)
+		it.guard = &g
+	}
 	return it, nil
 }
 
@@ -194,7 +224,11 @@ func (fr *frame) applyAssigns(items []*assignItem) {
 				ft.c.Assume(nv, ft.c.Quant(false, j, SIdx, mkImp(mkOr(app(SBool, "bvslt", jt, *it.lo), app(SBool, "bvsge", jt, *it.hi)),
 					mkEq(mkSelect(nv, jt), mkSelect(old, jt)))))
 			}
-			fr.cur.mem.m[c] = ft.c.Define("m$"+c, mkStore(arr, it.ref, nv))
+			upd := mkStore(arr, it.ref, nv)
+			if it.guard != nil {
+				upd = mkIte(*it.guard, upd, arr)
+			}
+			fr.cur.mem.m[c] = ft.c.Define("m$"+c, upd)
 			fr.checkLoopMod(c)
 		}
 	}
